@@ -27,7 +27,9 @@ const SECOND_DAYS: [(i32, u32, u32); 8] = [(1900, 1, 1), (1900, 2, 28), (1900, 3
 const MAIN_FMT: &str = "yyyy-mm-dd hh:mm:ss";
 const MONTH_ABBR: [&str; 12] = ["Jan", "Feb", "Mar", "Apr", "May", "Jun", "Jul", "Aug", "Sep", "Oct", "Nov", "Dec"];
 /// secondary date formats (rendered by `render`)
-const EXTRA_FMTS: [&str; 7] = ["yyyy-mm-dd", "dd/mm/yyyy", "m/d/yyyy", "m/d/yyyy h:mm", "d-mmm-yy", COND_FMTS[0], COND_FMTS[1]];
+const EXTRA_FMTS: [&str; 10] = ["yyyy-mm-dd", "dd/mm/yyyy", "m/d/yyyy", "m/d/yyyy h:mm", "d-mmm-yy", COND_FMTS[0], COND_FMTS[1], LIT_FMTS[0], LIT_FMTS[1], LIT_FMTS[2]];
+/// quoted literals in every position: in front of the first date code, two of them side by side, at the very end
+const LIT_FMTS: [&str; 3] = ["\"Due: \"yyyy-mm-dd hh:mm:ss", "yyyy-mm-dd\" at \"\"about \"hh:mm:ss", "yyyy-mm-dd\" (UTC)\""];
 /// two-section codes whose FIRST section has a condition: a serial below 1 is a time of day, anything else a date;
 /// which section applies is decided by the value's magnitude, not by its sign
 const COND_FMTS: [&str; 2] = ["[<1]h:mm:ss;yyyy-mm-dd hh:mm:ss", "[<1]h:mm:ss;yyyy-mm-dd"];
@@ -84,6 +86,9 @@ fn render(fmt: &str, y: i32, m: u32, d: u32, secs: u32) -> String {
         "m/d/yyyy h:mm" => format!("{}/{}/{:04} {}:{:02}", m, d, y, h, mi),
         "d-mmm-yy" => format!("{}-{}-{:02}", d, MONTH_ABBR[(m - 1) as usize], y % 100),
         "[<1]h:mm:ss;yyyy-mm-dd" => format!("{:04}-{:02}-{:02}", y, m, d),
+        "\"Due: \"yyyy-mm-dd hh:mm:ss" => format!("Due: {}", stamp(y, m, d, secs)),
+        "yyyy-mm-dd\" at \"\"about \"hh:mm:ss" => format!("{:04}-{:02}-{:02} at about {:02}:{:02}:{:02}", y, m, d, h, mi, secs % 60),
+        "yyyy-mm-dd\" (UTC)\"" => format!("{:04}-{:02}-{:02} (UTC)", y, m, d),
         _ => stamp(y, m, d, secs),
     }
 }
